@@ -24,24 +24,24 @@ theorem vsix_keepFile_iff (fp : Bytes) : keepFile fp = true ↔
       simp only [not_or] at h1 h2
       cases hp : sDigSigSlash.isPrefixOf fp <;> simp [h1, h2]
 
-/-- **vsix_payload_preserved.** Whatever the package holds: after a successful `sign` the output is the input's kept parts
+/-- **vsix_payload_preserved.** Whatever the package holds, before (`fx = false`) and after the repairs: after a successful `sign` the output is the input's kept parts
     (`keepFile`), byte-identical and in order, followed by new parts whose names are `newNames c`:
     `_rels/.rels`, `package/services/digital-signature/_rels/origin.psdor.rels`, `…/origin.psdor`, with `--detach-certs` one
     `…/certificate/<name>.cer` per chain certificate and `…/xml-signature/_rels/<name>.psdsxs.rels`, then
     `…/xml-signature/<name>.psdsxs` and `[Content_Types].xml`. -/
-theorem vsix_payload_preserved (E : Env) (c : Cfg) (pkg : Pkg) (s : Vsix.Signed) (hs : Vsix.sign E c pkg = .ok s) :
+theorem vsix_payload_preserved (fx : Bool) (E : Env) (c : Cfg) (pkg : Pkg) (s : Vsix.Signed) (hs : Vsix.sign fx E c pkg = .ok s) :
     s.kept = pkg.filter (fun p => keepFile p.name) ∧
     ∃ news, s.parts = s.kept ++ news ∧ news.map (·.name) = newNames c := by
   obtain ⟨m, hm, -, -, hkept, -, hparts⟩ := sign_inv hs
-  obtain ⟨hk, -⟩ := mangle_spec E pkg {} m hm
+  obtain ⟨hk, -⟩ := mangle_spec fx E pkg {} m hm
   simp only [List.nil_append] at hk
   exact ⟨by rw [hkept, hk]; rfl, _, by rw [hparts, hkept], newsOf_names E c s.obj s.ctOut⟩
 
 /-- with the signer's names in order (`cfgOk`): the payload sub-list of the output *is* the payload sub-list of the input -/
-theorem vsix_payload_sublist_eq (E : Env) (c : Cfg) (pkg : Pkg) (s : Vsix.Signed) (hs : Vsix.sign E c pkg = .ok s) (hc : cfgOk c = true) :
+theorem vsix_payload_sublist_eq (fx : Bool) (E : Env) (c : Cfg) (pkg : Pkg) (s : Vsix.Signed) (hs : Vsix.sign fx E c pkg = .ok s) (hc : cfgOk c = true) :
     s.parts.filter (fun p => keepFile p.name) = pkg.filter (fun p => keepFile p.name) := by
   have F := cfgFacts_of_cfgOk hc
-  obtain ⟨hk, news, hp, hn⟩ := vsix_payload_preserved E c pkg s hs
+  obtain ⟨hk, news, hp, hn⟩ := vsix_payload_preserved fx E c pkg s hs
   rw [hp, List.filter_append, hk, List.filter_filter]
   have : news.filter (fun p => keepFile p.name) = [] := by
     apply List.filter_eq_nil_iff.mpr
@@ -51,9 +51,9 @@ theorem vsix_payload_sublist_eq (E : Env) (c : Cfg) (pkg : Pkg) (s : Vsix.Signed
   simp [this]
 
 /-- exactly which input parts are gone -/
-theorem vsix_dropped_iff (E : Env) (c : Cfg) (pkg : Pkg) (s : Vsix.Signed) (hs : Vsix.sign E c pkg = .ok s) (p : Part) (hp : p ∈ pkg)
+theorem vsix_dropped_iff (fx : Bool) (E : Env) (c : Cfg) (pkg : Pkg) (s : Vsix.Signed) (hs : Vsix.sign fx E c pkg = .ok s) (p : Part) (hp : p ∈ pkg)
     (hn : p.name ∉ newNames c) : p ∈ s.parts ↔ keepFile p.name = true := by
-  obtain ⟨hk, news, hparts, hnames⟩ := vsix_payload_preserved E c pkg s hs
+  obtain ⟨hk, news, hparts, hnames⟩ := vsix_payload_preserved fx E c pkg s hs
   rw [hparts, hk, List.mem_append, List.mem_filter]
   constructor
   · rintro (h | h)
@@ -66,19 +66,19 @@ theorem vsix_dropped_iff (E : Env) (c : Cfg) (pkg : Pkg) (s : Vsix.Signed) (hs :
     everything below `package/services/digital-signature/` -/
 def sigMachinery (n : Bytes) : Bool := n == sContentTypes || n == sTopRels || sDigSigSlash.isPrefixOf n
 
-/-- the statement one would want: every part that is not signature machinery survives signing -/
+/-- the statement one would want (repaired code): every part that is not signature machinery survives signing -/
 def vsix_payload_preserved_full : Prop :=
-  ∀ (E : Env) (c : Cfg) (pkg : Pkg) (s : Vsix.Signed), Vsix.sign E c pkg = .ok s → ∀ p ∈ pkg, sigMachinery p.name = false → p ∈ s.parts
+  ∀ (E : Env) (c : Cfg) (pkg : Pkg) (s : Vsix.Signed), Vsix.sign true E c pkg = .ok s → ∀ p ∈ pkg, sigMachinery p.name = false → p ∈ s.parts
 
 /-- "x.rels" -/
 def xRelsName : Bytes := [0x78, 0x2e, 0x72, 0x65, 0x6c, 0x73]
 
-/-- **vsix_foreign_parts_dropped** (finding).  The part `x.rels` of the demo package is not signature machinery; signing
+/-- **vsix_foreign_parts_dropped** (finding FV2, listed; the repairs do not touch `keepFile`).  The part `x.rels` of the demo package is not signature machinery; signing
     succeeds and the part is gone (so is every `*.rels`, `*.psdor`, `*.psdsxs` anywhere: `vsix_keepFile_iff`). -/
 theorem vsix_foreign_parts_dropped :
     (⟨xRelsName, [3]⟩ : Part) ∈ demoPkg ∧ sigMachinery xRelsName = false ∧
-    Vsix.sign (demoE (demoCfg false) demoPkg) (demoCfg false) demoPkg = .ok (demoSigned (demoCfg false) demoPkg) ∧
-    (demoSigned (demoCfg false) demoPkg).parts.all (fun q => q.name ≠ xRelsName) = true :=
+    Vsix.sign true (demoE (demoCfg false) demoPkg) (demoCfg false) demoPkg = .ok (demoSigned true (demoCfg false) demoPkg) ∧
+    (demoSigned true (demoCfg false) demoPkg).parts.all (fun q => q.name ≠ xRelsName) = true :=
   ⟨by decide, by decide, by unfold demoSigned; rfl, by decide⟩
 
 theorem vsix_payload_preserved_full_false : ¬ vsix_payload_preserved_full := by
@@ -90,7 +90,7 @@ theorem vsix_payload_preserved_full_false : ¬ vsix_payload_preserved_full := by
   simp at this
 
 /-- the kept parts of the demo package: `a.txt` alone (content types, `x.rels` and the stale origin part are dropped) -/
-example : (demoSigned (demoCfg true) demoPkg).kept = [⟨[0x61, 0x2e, 0x74, 0x78, 0x74], [1, 2]⟩] ∧
-    (demoSigned (demoCfg true) demoPkg).parts.length = 8 := by decide
+example : (demoSigned true (demoCfg true) demoPkg).kept = [⟨[0x61, 0x2e, 0x74, 0x78, 0x74], [1, 2]⟩] ∧
+    (demoSigned true (demoCfg true) demoPkg).parts.length = 8 := by decide
 
 end Relic.Props.C03
